@@ -6,6 +6,7 @@ import (
 	"context"
 	"encoding/json"
 	"fmt"
+	"github.com/sirupsen/logrus"
 	"os"
 	"os/exec"
 	"strconv"
@@ -605,6 +606,64 @@ func Run(c *engine.Ctx) {
 		}
 		stringValues(c, b.name, root, paths, labels)
 		growth(c, b.name, root, paths, labels)
+		// the log level as an environment answer: every single fault, and every pair of the structure-removing faults
+		// (absent / null) at members of depth <= 2, parsed with the library's logger at trace level (output discarded)
+		c.Group(b.name + "-at-trace-level")
+		nTrace := 0
+		for pi := range paths {
+			for fi := range faults {
+				if faults[fi].Heavy {
+					continue
+				}
+				pi, fi := pi, fi
+				nTrace++
+				c.Case(func() any {
+					return map[string]string{"base": b.name, "path": labels[pi], "fault": faults[fi].Name, "log-level": "trace"}
+				}, func(t *engine.T) *engine.Violation {
+					in, ok := jsonfault.Mutate(root, []jsonfault.Path{paths[pi]}, []jsonfault.Fault{faults[fi]})
+					if !ok {
+						return nil
+					}
+					t.State(fmt.Sprintf("trace|%s|%s|%s", b.name, labels[pi], faults[fi].Name))
+					var v *engine.Violation
+					rw.AtLogLevel(logrus.TraceLevel, func() { v = probe(t, []byte(in), false) })
+					return v
+				})
+			}
+		}
+		var removing []jsonfault.Fault
+		for _, f := range light {
+			if f.Name == "absent" || f.Name == "null" {
+				removing = append(removing, f)
+			}
+		}
+		for pi := range paths {
+			for pj := pi + 1; pj < len(paths); pj++ {
+				if len(paths[pi]) > 2 || len(paths[pj]) > 2 {
+					continue
+				}
+				for fi := range removing {
+					for fj := range removing {
+						pi, pj, fi, fj := pi, pj, fi, fj
+						nTrace++
+						c.Case(func() any {
+							return map[string]string{"base": b.name, "path1": labels[pi], "fault1": removing[fi].Name, "path2": labels[pj], "fault2": removing[fj].Name, "log-level": "trace"}
+						}, func(t *engine.T) *engine.Violation {
+							in, ok := jsonfault.Mutate(root, []jsonfault.Path{paths[pi], paths[pj]}, []jsonfault.Fault{removing[fi], removing[fj]})
+							if !ok {
+								t.Outcome("nested-paths-skipped")
+								return nil
+							}
+							t.State(fmt.Sprintf("trace|%s|%s|%s|%s|%s", b.name, labels[pi], removing[fi].Name, labels[pj], removing[fj].Name))
+							var v *engine.Violation
+							rw.AtLogLevel(logrus.TraceLevel, func() { v = probe(t, []byte(in), false) })
+							return v
+						})
+					}
+				}
+			}
+		}
+		c.Bound(b.name+"-at-trace-level", fmt.Sprintf("%d cases with the library's logger at trace level: every single fault, every pair of absent / null faults at members of depth <= 2", nTrace))
 		c.Group(b.name + "-double")
 		c.Bound(b.name+"-double", fmt.Sprintf("all unordered pairs of distinct non-nested paths (%d paths) x %d^2 fault pairs, auto-detect", len(paths), len(pairMenu)))
 		for pi := range paths {
